@@ -107,6 +107,10 @@ type Engine struct {
 	watchHits    int
 	sleepBudget  int
 	declined     bool
+	spawnRan     map[int]bool
+	inLeftover   bool
+	termWatch    map[*ChanObj]bool
+	termSignalled bool
 	anyBlock     FuncV
 	lassoBound   int
 	closedTaken  map[*ssa.Select]int
@@ -152,6 +156,13 @@ type HarnessResult struct {
 }
 
 func (e *Engine) abort(status, detail string) {
+	if e.inLeftover {
+		switch status {
+		case "BLOCKED", "LASSO", "BUDGET", "UNWIND", "TICK-HORIZON", "HORIZON", "ENV-HORIZON", "DEPTH", "LATE-BLOCK":
+			detail = status + ": " + detail
+			status = "GOROUTINE-LEAK"
+		}
+	}
 	panic(pathEnd{status, detail})
 }
 
@@ -472,6 +483,10 @@ func (e *Engine) resetPathState() {
 	e.watched = nil
 	e.watchHits = 0
 	e.sleepBudget = -1
+	e.spawnRan = map[int]bool{}
+	e.inLeftover = false
+	e.termWatch = map[*ChanObj]bool{}
+	e.termSignalled = false
 	e.anyBlock = FuncV{}
 	e.lassoBound = 0
 	e.closedTaken = nil
